@@ -25,7 +25,9 @@ REAL_INPUTS = [('file', '3SGB'), ('file', '1HPX'), ('file', '4DFR'), ('file', '1
                ('pair', 'PYR', 'GLU', 2.8, 'deep'), ('pair', 'MPO', 'ARG', 3.0, 'exposed'), ('pair', 'MSH', 'HIS', 3.2, 'exposed'),
                ('pair', 'CYS', 'CYS', 2.03, 'exposed'), ('pair', 'CL', 'LYS', 3.0, 'mid'), ('pair', 'N+', 'C-', 3.0, 'exposed'),
                # groups whose model pKa comes from the per-residue custom table (pseudo-nucleotides, see C01)
-               ('dna', 'DA', 'N1'), ('dna', 'DG', 'N7'), ('dna', 'DT', 'N3'), ('dna', 'DC', 'N3')]
+               ('dna', 'DA', 'N1'), ('dna', 'DG', 'N7'), ('dna', 'DT', 'N3'), ('dna', 'DC', 'N3'),
+               # groups that print the same label: two copies of a ligand in one chain, residues differing in insertion code only
+               ('twocopies', 'ACT', 'LYS'), ('twocopies', 'MAM', 'GLU'), ('twins', 'GLU', 'GLU'), ('twins', 'LYS', 'LYS')]
 
 
 def sigs(tier):
@@ -115,12 +117,33 @@ def oracle(mol, case, acc, text=None, lattice=True):
                 v.append(('charge-profile-%s' % ('columns-swapped' if sw else 'not-sum-of-groups'),
                           'pH %s: (unfolded,folded)=(%r,%r) reference (%r,%r)' % (ph, qu, qf, ru, rf)))
                 break
-    # pI
-    for win in PI_WINDOWS:
+    # pI: the fixed windows plus windows that bracket the root of exactly one of the two curves
+    wins = list(PI_WINDOWS)
+    roots = []
+    for col in (0, 1):
+        lo, hi = -5.0, 20.0
+        if pf.ref_totals(tri, lo)[col] > 1e-9 and pf.ref_totals(tri, hi)[col] < -1e-9:
+            for _ in range(60):
+                mid = 0.5 * (lo + hi)
+                if pf.ref_totals(tri, mid)[col] > 0:
+                    lo = mid
+                else:
+                    hi = mid
+            roots.append(0.5 * (lo + hi))
+    for r in roots:
+        for w in ((r - 0.26, r + 0.25), (r - 1.0, r + 0.5)):
+            if sum(1 for x in roots if w[0] < x < w[1]) == 1 and len(roots) == 2 and abs(roots[0] - roots[1]) > 1e-3:
+                wins.append((round(w[0], 3), round(w[1], 3)))
+    for win in wins:
         for prec in PRECISIONS:
             pif, piu = mol.get_pi(conformation='AVR', grid=win, precision=prec)
             for which, pi, col in (('folded', pif, 1), ('unfolded', piu, 0)):
                 qlo, qhi = pf.ref_totals(tri, win[0])[col], pf.ref_totals(tri, win[1])[col]
+                if qlo > 1e-9 and qhi < -1e-9 and pi is None:
+                    v.append(('pi-missing-although-sign-change/%s' % which, 'pI(%s) is None for window %s' % (which, win)))
+                    continue
+                if pi is None:
+                    continue
                 if qlo > 1e-9 and qhi < -1e-9:
                     a = pf.ref_totals(tri, pi - prec)[col]
                     b = pf.ref_totals(tri, pi + prec)[col]
@@ -148,7 +171,9 @@ def oracle(mol, case, acc, text=None, lattice=True):
             v.append(('pi-line-missing', 'no pI line'))
         else:
             pif, piu = mol.get_pi(conformation='AVR')
-            if abs(p['pi'][0] - pif) > 0.00501 or abs(p['pi'][1] - piu) > 0.00501:
+            if pif is None or piu is None:
+                v.append(('pi-line-differs', 'printed %s API (%r, %r)' % (p['pi'], pif, piu)))
+            elif abs(p['pi'][0] - pif) > 0.00501 or abs(p['pi'][1] - piu) > 0.00501:
                 sw = abs(p['pi'][0] - piu) <= 0.00501 and abs(pif - piu) > 0.02
                 v.append(('pi-line-%s' % ('swapped' if sw else 'differs'), 'printed %s API (%r, %r)' % (p['pi'], pif, piu)))
     seen = set()
@@ -195,6 +220,17 @@ def real_text(inp, seed):
         frag = c01.dna_fragment(inp[1], inp[2]).translate((10000, 10000, 10000))
         pep = gen.S(c01.build_window(dict(key='3SGB', chain='I', index=20, oxt=1)))
         return gen.to_text(pep.items + ['TER\n'] + frag.translate((30000, 0, 0)).items)
+    if inp[0] == 'twocopies':
+        s1 = gen.pair(inp[1], inp[2], 2.9, level='exposed', offset=gen.seed_offset(seed))
+        free = gen.kind_struct(inp[1], 'A', 2)
+        ext = s1.extent()
+        free.translate((ext[0][1] + 30000, (ext[1][0] + ext[1][1]) // 2, (ext[2][0] + ext[2][1]) // 2))
+        return gen.to_text(gen.S(s1.items + free.items + ['TER\n']).renumber_serials())
+    if inp[0] == 'twins':
+        from . import c01
+        items = c01.build_stream(dict(start=(5, 'A'), tokens=[('GLY', 'next', 'same', 0, 'none', 'ATOM  '), (inp[1], 'next', 'same', 0, 'none', 'ATOM  '),
+                                                             (inp[2], 'twin', 'same', 1, 'none', 'ATOM  ')]), seed)
+        return gen.to_text(items)
     return gen.to_text(gen.pair(inp[1], inp[2], inp[3], level=inp[4], offset=gen.seed_offset(seed)))
 
 
